@@ -504,3 +504,14 @@ def r14(ctx):
 
 
 RULES.append(("C16.R14", "T2-loop", "the user request queue is drained until a request starts (shared with C19.R9)", r14))
+
+
+def r15(ctx):
+    """'accepts only the echo of ITS command': the association's request sequence number is not part of what a session reset clears - a
+    retried command after a reconnect carries a new number, so a late reply to the failed attempt is not taken for its echo (the reset
+    discipline of Association::reset is rule C17.R3, shared code)."""
+    import c17
+    c17.r3(ctx)
+
+
+RULES.append(("C16.R15", "T2", "a session reset clears only what C17.R3 lists (the request sequence number survives) (shared with C17.R3)", r15))
